@@ -23,7 +23,7 @@ func TestMain(m *testing.M) { vk.Main(m, "C12") }
 // Signatures of findings this oracle can tell apart.
 const (
 	sigNoReattach = "C12:reorganizeChain:attach-failed:old-chain-not-reattached"
-	sigStranded   = "C12:ProcessOrphans:abort-on-invalid-orphan:valid-orphan-stranded"
+	sigStranded   = "C12:ProcessOrphans:valid-orphan-left-in-pool-after-parent-accepted"
 )
 
 type oracle struct {
